@@ -1,13 +1,13 @@
 /-
 C12 driver: one JSON request per line on stdin, one JSON answer per line on stdout.
   {"op":"row","row":{"py":..,"cpp":..,"includes":[..],"ret":..}}
-      -> {"holds":b,"namesake":b,"header":b,"ret":b,"arith":b,"faithful":b,"byvalue":b}
+      -> {"holds":b,"namesake":b,"header":b,"ret":b,"arith":b,"faithful":b,"byvalue":b,"knownPy":b,"knownCpp":b}
   {"op":"resolve","name":n[,"binding":{"k":"unbound"|"module"|"nomodule","m":..}]}
       -> {"row":{..}|null} | {"err":"AttributeError"}          (generated table, generated or given binding)
   {"op":"accepted","name":n} -> {"holds":b}                     (acceptedAs on the generated configuration)
   {"op":"tr","expr":E}
       -> {"ok":{"text":..,"ty":..,"incs":[..]},"roundtrip":b,...flags} | {"err":<python exception class>,...flags}
-         flags: "documented","scoped","accepted","spec" (SpecTerm of the model's own result)
+         flags: "documented","scoped","accepted","clean","spec" (SpecTerm of the model's own result)
   {"op":"spec","expr":E,"leaves":[[text,ty],..],"obs":{"text":..,"declTy":..,"incs":[..]}|null}
       -> {"holds":b,"why":s}
   E ::= {"k":"leaf","t":text,"ty":type} | {"k":"call","f":name,"args":[E..]}
@@ -99,7 +99,8 @@ def handle (line : String) : String :=
           | some m => m.callableByValue
           | none => false
         pure (Json.mkObj [("holds", SpecRow cfg.prio r), ("namesake", rowNamesake r), ("header", rowHeader r),
-          ("ret", rowReturnDouble r), ("arith", rowArith cfg.prio r), ("faithful", rowRetFaithful r), ("byvalue", byv)])
+          ("ret", rowReturnDouble r), ("arith", rowArith cfg.prio r), ("faithful", rowRetFaithful r), ("byvalue", byv),
+          ("knownPy", (meaningPy r.py).isSome), ("knownCpp", (meaningCpp r.cpp).isSome)])
       else if op == "resolve" then
         let n ← (← j.getObjVal? "name").getStr?
         let res := match j.getObjVal? "binding" with
@@ -119,7 +120,7 @@ def handle (line : String) : String :=
         let e ← parseExpr (← j.getObjVal? "expr")
         let res := tr cfg e
         let flags : List (String × Json) := [("documented", Documented Gen.readmeFunctions e), ("scoped", Scoped cfg e),
-          ("accepted", Accepted cfg e), ("spec", SpecTerm Gen.readmeFunctions e res)]
+          ("accepted", Accepted cfg e), ("clean", Clean cfg e), ("spec", SpecTerm Gen.readmeFunctions e res)]
         match res with
         | .ok v =>
           let text := render v.term
